@@ -29,7 +29,7 @@ var techniques = map[string]string{
 	"C17": "custom static analysis: tee capture-buffer window protocol (bytes dropped only up to the decoder's InputOffset), must-assign analysis of the lexer's token over its CFG, token-is-source-slice lint, reconciliation of encoding/json's two offset conventions, terminator agreement between the discarded-line counters and the excerpt scanner, seek-origin audit of the input re-read, rune-boundary reaching-definitions over the excerpt cuts, licensing of every lexer step by a test of the byte stepped over (go/cfg)",
 	"C18": "custom static analysis: defer/pairing and capture-time audit of compileModule, emission census of data imports, total-comparator check of modulemeta lists, shape of the two lookup candidates, unnormalised search-path flow, user metadata before computed keys; floor audit of compileModule and of every search through the open scopes (importer names invisible inside imported modules)",
 	"C19": "custom capability analysis: ambient-authority symbol census over the call graph, option-only field stores, nil-guarded capability uses, sibling call sites of custom functions, exp-bracket placement of native arguments in the emission templates of compileCallInternal with a checked value predicate",
-	"C20": "custom static analysis: tail-position check of recursive builtin definitions over the evaluated builtin.go AST, tail-call rewrite conditions, frame reuse ordering, per-iteration backtrack pairing",
+	"C20": "custom static analysis: tail-position check of recursive builtin definitions over the evaluated builtin.go AST, tail-call rewrite conditions, frame reuse ordering, per-iteration backtrack pairing; capture-buffer trimming of the input iterators, bounded regexp cache",
 }
 
 func claimed() []string {
